@@ -425,19 +425,25 @@ pub fn proto_extensions(ctx: &Ctx) {
     let ni = ctx.pick("extension-attribute-name", XNAMES.len());
     let si = ctx.pick("namespace-prefix", XSPACES.len());
     let pos = ctx.pick("position-in-prototype", 5);
-    let second = ctx.pick("second-extension-attribute", 2) == 1;
+    // 0 none, 1 a second attribute of the same extension, 2 a second attribute under ANOTHER prefix
+    // that is bound to the same URL (both prefixes must be reported as written)
+    let second = ctx.pick("second-extension-attribute", 3);
     let (name, ns) = (XNAMES[ni], XSPACES[si]);
     let mut proto = cat::xyz(F32);
     proto.push(rec("intensity", m::Ty::Int { min: 0, max: 255 }));
     proto.insert(pos.min(proto.len()), ext_rec(ns, name, m::Ty::Int { min: -7, max: 1000 }));
-    if second {
-        proto.push(ext_rec(ns, "cartesianY", m::Ty::F64 { min: None, max: None }));
+    let mut ops = vec![Op::Ext(ns.into(), format!("http://example.com/{ns}"))];
+    match second {
+        1 => proto.push(ext_rec(ns, "cartesianY", m::Ty::F64 { min: None, max: None })),
+        2 => {
+            ops.push(Op::Ext("alt".into(), format!("http://example.com/{ns}")));
+            proto.push(ext_rec("alt", "cartesianY", m::Ty::F64 { min: None, max: None }));
+        }
+        _ => {}
     }
-    let p = Program {
-        guid: "g".into(),
-        ops: vec![Op::Ext(ns.into(), format!("http://example.com/{ns}")), Op::Cloud(cloud(proto, 5, ni as u64 + 1))],
-        ..Default::default()
-    };
+    let cloud_at = ops.len();
+    ops.push(Op::Cloud(cloud(proto, 5, ni as u64 + 1)));
+    let p = Program { guid: "g".into(), ops, ..Default::default() };
     // names the writer refuses are not the subject here: "for every extension name the writer accepts"
     ctx.describe(|| describe(&p));
     let dev = Dev::empty();
@@ -473,12 +479,14 @@ pub fn proto_extensions(ctx: &Ctx) {
     if read_and_compare(ctx, &p, &w, P, None).is_some() {
         // "standard attributes of the same point cloud are unaffected": the simple iterator must
         // deliver the same points as for the same cloud written without its extension records
-        let Op::Cloud(with_ext) = &p.ops[1] else { return };
+        let Op::Cloud(with_ext) = &p.ops[cloud_at] else { return };
         let keep: Vec<usize> = with_ext.proto.iter().enumerate().filter(|(_, r)| r.ns.is_none()).map(|(i, _)| i).collect();
         let mut plain = with_ext.clone();
         plain.proto = keep.iter().map(|i| with_ext.proto[*i].clone()).collect();
         plain.points = with_ext.points.iter().map(|pt| keep.iter().map(|i| pt[*i]).collect()).collect();
-        let p0 = Program { guid: "g".into(), ops: vec![p.ops[0].clone(), Op::Cloud(plain)], ..Default::default() };
+        let mut ops0: Vec<Op> = p.ops[..cloud_at].to_vec();
+        ops0.push(Op::Cloud(plain));
+        let p0 = Program { guid: "g".into(), ops: ops0, ..Default::default() };
         let simple = |bytes: &[u8]| -> Result<Vec<String>, String> {
             let mut r = E57Reader::new(Dev::new(bytes.to_vec())).map_err(|e| err_string(&e))?;
             let pc = r.pointclouds()[0].clone();
